@@ -235,6 +235,116 @@ theorem C10_after_failure (fs : FS) (hwf : WF fs) (tmp dst new : Str) (f : Fault
       rw [this]
       exact read_after_remove fs hwf tmp new n hnt
 
+/-! ### A reader that holds an open descriptor -/
+
+theorem take_split (l : List Op) (k k' : Nat) (h : k ≤ k') : l.take k' = l.take k ++ (l.drop k).take (k' - k) := by
+  have : k' = k + (k' - k) := by omega
+  rw [this, List.take_add]
+  simp
+
+theorem run_append (fs : FS) (a b : List Op) : run fs (a ++ b) = run (run fs a) b := by
+  simp [run, List.foldl_append]
+
+/-- renames and removals do not touch any inode's content -/
+def noWrite : Op → Bool
+  | .rename _ _ => true
+  | .remove _ => true
+  | _ => false
+
+theorem data_noWrite (g : FS) (l : List Op) (h : ∀ o ∈ l, noWrite o = true) : (run g l).data = g.data := by
+  induction l generalizing g with
+  | nil => rfl
+  | cons o rest ih =>
+    simp only [run, List.foldl_cons]
+    have ho := h o (by simp)
+    have hrest : ∀ o' ∈ rest, noWrite o' = true := fun o' ho' => h o' (by simp [ho'])
+    have := ih (step g o) hrest
+    simp only [run] at this
+    rw [this]
+    cases o with
+    | createTemp n => simp [noWrite] at ho
+    | append n b => simp [noWrite] at ho
+    | rename a b => simp only [step]; split <;> rfl
+    | remove n => rfl
+
+/-- from the third operation on the writer only renames or removes -/
+theorem writer_tail_noWrite (tmp dst new : Str) (f : Fault) (k : Nat) (hk : 2 ≤ k) :
+    ∀ o ∈ (writerOps tmp dst new f).drop k, noWrite o = true := by
+  intro o ho
+  cases f with
+  | none =>
+    have : (writerOps tmp dst new .none).drop k = ([Op.rename tmp dst]).drop (k - 2) := by
+      simp only [writerOps]
+      obtain ⟨m, rfl⟩ : ∃ m, k = m + 2 := ⟨k - 2, by omega⟩
+      simp
+    rw [this] at ho
+    have := List.mem_of_mem_drop ho
+    simp at this; subst this; rfl
+  | createFails => simp [writerOps] at ho
+  | writeFailsAfter m =>
+    have : (writerOps tmp dst new (.writeFailsAfter m)).drop k = [] := by
+      simp only [writerOps]
+      apply List.drop_eq_nil_of_le; simp; omega
+    rw [this] at ho; cases ho
+  | renameFails =>
+    have : (writerOps tmp dst new .renameFails).drop k = ([Op.remove tmp]).drop (k - 2) := by
+      simp only [writerOps]
+      obtain ⟨m, rfl⟩ : ∃ m, k = m + 2 := ⟨k - 2, by omega⟩
+      simp
+    rw [this] at ho
+    have := List.mem_of_mem_drop ho
+    simp at this; subst this; rfl
+
+/-- an inode that existed before the write keeps its content at every crash point -/
+theorem content_old (fs : FS) (hwf : WF fs) (tmp dst new : Str) (f : Fault) (k : Nat) (j : Nat) (hj : j < fs.next) :
+    (run fs ((writerOps tmp dst new f).take k)).content j = fs.content j := by
+  have hne : fs.next ≠ j := by omega
+  rcases run_prefixes fs tmp dst new f k with h | h | ⟨b, h⟩ | h | h
+  · rw [h]
+  · rw [h, step_createTemp]; simp [s1, FS.content, lookup, hne]
+  · rw [h, step_createTemp, step_append]; simp [s2, FS.content, lookup, hne]
+  · rw [h, step_createTemp, step_append, step_rename]; simp [s2, FS.content, lookup, hne]
+  · rw [h, step_createTemp, step_append]; simp [step, s2, FS.content, lookup, hne]
+
+/-- before the rename, a name other than the temp name leads to an inode that existed before -/
+theorem ino_old_early (fs : FS) (hwf : WF fs) (tmp dst new : Str) (f : Fault) (k : Nat) (hk : k ≤ 1)
+    (n : Str) (hn : n ≠ tmp) (i : Nat) (h : (run fs ((writerOps tmp dst new f).take k)).ino n = some i) :
+    i < fs.next := by
+  have h0 : fs.ino n = some i → i < fs.next := fun h0 => lookup_lt hwf.1 h0
+  match k, hk with
+  | 0, _ => exact h0 (by simpa [run] using h)
+  | 1, _ =>
+    cases f with
+    | createFails => exact h0 (by simpa [writerOps, run] using h)
+    | none | writeFailsAfter _ | renameFails =>
+      all_goals
+        simp only [writerOps, List.take_succ_cons, List.take_zero, run, List.foldl_cons, List.foldl_nil] at h
+        rw [step_createTemp] at h
+        simp only [s1, FS.ino, lookup, Ne.symm hn, if_false, lookup_unbind_ne _ _ _ hn] at h
+        exact h0 h
+
+/-- **C10 (a reader with an open descriptor)**: a reader that opened a Spec-named file at any
+crash point `k` — obtaining the inode behind that name at that instant — finds, whenever it
+reads from the descriptor later (`k' ≥ k`, the writer having gone on, failed or been killed in
+between), exactly the content the inode held when it was opened: the writer never writes into an
+inode that is, or has been, reachable under a Spec name.  Together with `C10_pub_invariant` (what
+a name leads to at the instant of the open is complete old or complete new content) a reader
+spread over any number of steps reads complete old or complete new content. -/
+theorem C10_open_descriptor_frozen (fs : FS) (hwf : WF fs) (tmp dst new : Str) (f : Fault) (k k' : Nat) (hkk : k ≤ k')
+    (htmp : isSpecName tmp = false) (n : Str) (hn : isSpecName n = true) (i : Nat)
+    (hopen : (run fs ((writerOps tmp dst new f).take k)).ino n = some i) :
+    (run fs ((writerOps tmp dst new f).take k')).content i =
+      (run fs ((writerOps tmp dst new f).take k)).content i := by
+  have hnt : n ≠ tmp := fun e => by rw [e, htmp] at hn; cases hn
+  by_cases hk : k ≤ 1
+  · have hi := ino_old_early fs hwf tmp dst new f k hk n hnt i hopen
+    rw [content_old fs hwf tmp dst new f k' i hi, content_old fs hwf tmp dst new f k i hi]
+  · have hk2 : 2 ≤ k := by omega
+    rw [take_split _ k k' hkk, run_append]
+    have hnw : ∀ o ∈ ((writerOps tmp dst new f).drop k).take (k' - k), noWrite o = true :=
+      fun o ho => writer_tail_noWrite tmp dst new f k hk2 o (List.mem_of_mem_take ho)
+    simp only [FS.content, data_noWrite _ _ hnw]
+
 /-! ### Non-vacuity -/
 def fsEx : FS := { names := [(lit "a.json", 0)], data := [(0, lit "OLD")], next := 1 }
 example : WF fsEx := by constructor <;> (intro p hp; simp [fsEx] at hp; subst hp; decide)
